@@ -19,6 +19,8 @@ import (
 
 	reportertypes "github.com/tellor-io/layer/x/reporter/types"
 
+	"pgregory.net/rapid"
+
 	"verif/harness/pbt"
 )
 
@@ -202,8 +204,84 @@ func stakeProfile() *Profile {
 		OpPropose: 12, OpAddFee: 6, OpVote: 12, OpFeeRefund: 6, OpClaimReward: 3,
 		OpDelegate: 6, OpUndelegate: 8, OpRedelegate: 6, OpCancelUnbond: 3, OpCreateVal: 1, OpUnjailVal: 1, OpUnjailReporter: 3, OpMultiStake: 1,
 	}
-	return &Profile{Name: "stake", Weights: w, MinBlocks: 10, MaxBlocks: 35, MaxOps: 5, AbsentPM: 100, BadVarPM: 60, Setup: true, ThoroughScale: 3,
+	p := &Profile{Name: "stake", Weights: w, MinBlocks: 10, MaxBlocks: 35, MaxOps: 5, AbsentPM: 100, BadVarPM: 60, Setup: true, ThoroughScale: 3,
 		GapW: []int{2, 2, 8, 20, 3, 3, 2, 2, 6, 6, 6, 1, 2, 0, 5}}
+	// validators leaving the bonded set between an escrow / fee payment and its return: in one case of three one or two
+	// validators stop signing from a generated block on (they are jailed for downtime after the short signing window
+	// and stay out unless a generated unjail brings them back); other blocks keep the occasional absent validator
+	doomed, from := []int{}, 0
+	scripted, nv := false, 0
+	p.Genesis = func(t *rapid.T) GenesisCfg {
+		g := GenGenesis(t)
+		doomed, from = nil, 0
+		scripted, nv = false, g.NumValidators
+		if uni(t, "scriptedFeeFromStakeThenJail", 4) == 0 && g.NumValidators >= 5 {
+			// scripted start (see Prefix): two backers of one reporter are staked with two small validators, a dispute fee
+			// is paid from that stake, both validators are jailed for downtime, the under-funded dispute fails after a
+			// day and the fee is refunded to stake whose validators have left the bonded set
+			scripted = true
+			a := uni(t, "scriptValA", g.NumValidators)
+			b := (a + 1 + uni(t, "scriptValB", g.NumValidators-1)) % g.NumValidators
+			for i := range g.ValTokens {
+				g.ValTokens[i] = 100_000_000
+			}
+			g.ValTokens[a], g.ValTokens[b] = 20_000_000, 20_000_000
+			g.MaxValidators = g.NumValidators + 3
+			g.SlashWindow = 2 + int64(uni(t, "slashWindow", 2))
+			var ud [][3]int64
+			for _, d := range g.UserDelegs {
+				if d[0] > 1 {
+					ud = append(ud, d)
+				}
+			}
+			g.UserDelegs = append(ud, [3]int64{0, int64(a), 10_000_000}, [3]int64{1, int64(b), 10_000_000})
+			doomed, from = []int{a, b}, 0
+			return g
+		}
+		if uni(t, "doomedValidators", 3) == 0 && g.NumValidators >= 4 {
+			g.SlashWindow = 2 + int64(uni(t, "slashWindow", 3))
+			doomed = append(doomed, uni(t, "doomed0", g.NumValidators))
+			if g.NumValidators >= 6 && uni(t, "twoDoomed", 2) == 0 {
+				doomed = append(doomed, (doomed[0]+1+uni(t, "doomed1", g.NumValidators-1))%g.NumValidators)
+			}
+			from = 4 + uni(t, "doomedFrom", 14)
+		}
+		return g
+	}
+	p.Prefix = func(pick func(string, int) int) []Block {
+		if !scripted {
+			return nil
+		}
+		u0, u1 := nv, nv+1
+		absent := []VoteSpec{{Val: doomed[0], Mode: 1}, {Val: doomed[1], Mode: 1}}
+		sub := func(i int) Op { return Op{K: OpSubmit, A: pick("scriptReporter", 16), R: [3]int{0, 1 + i, 1 + 2*i}, S: "nodep"} }
+		blocks := []Block{
+			{Gap: GapSpec{Kind: 2}, Ops: []Op{{K: OpCreateReporter, A: u0, R: [3]int{0, 0, 8}}, sub(0)}},
+			{Gap: GapSpec{Kind: 2}, Ops: []Op{{K: OpSelectReporter, A: u1, V: 1, R: [3]int{u0, 0, 8}}, sub(1)}},
+			{Gap: GapSpec{Kind: 2}, Ops: []Op{{K: OpSubmit, A: u0, R: [3]int{0, 1, 8}, S: "nodep"}}},
+			{Gap: GapSpec{Kind: 2}, Ops: []Op{{K: OpPropose, A: u0, R: [3]int{pick("scriptReport", 4), 0, 3}, V: 1 + pick("scriptCategory", 2), Amt: Amount{Kind: AmtOfNeeded, N: []int64{500, 300, 900}[pick("scriptFeePm", 3)]}}}},
+		}
+		for i := 0; i < 6; i++ {
+			blocks = append(blocks, Block{Gap: GapSpec{Kind: 2}, Votes: absent})
+		}
+		blocks = append(blocks,
+			Block{Gap: GapSpec{Kind: 8, Delta: 1000}}, // a day later the under-funded dispute has failed
+			Block{Gap: GapSpec{Kind: 2}, Ops: []Op{{K: OpFeeRefund, A: u0, R: [3]int{0, 0, 8}}}},
+			Block{Gap: GapSpec{Kind: 2}})
+		return blocks
+	}
+	p.VoteGen = func(pick func(string, int) int, numVals int, blockIdx int) []VoteSpec {
+		var vs []VoteSpec
+		if len(doomed) > 0 && blockIdx >= from {
+			for _, d := range doomed {
+				vs = append(vs, VoteSpec{Val: d, Mode: 1})
+			}
+		} else if pick("misbehave", 10) == 0 {
+			vs = append(vs, VoteSpec{Val: pick("badVal", numVals), Mode: []int{1, 1, 2, 4}[pick("voteMode", 4)]})
+		}
+		return vs
+	}
+	return p
 }
 
 func TestC05_StakeLedger(t *testing.T) {
